@@ -162,6 +162,20 @@ def hasRoad (s : State) (c : Color) : Bool :=
   let bottom := all.filter (fun i => i / n == 0)
   (reach n ok left).any (fun i => i % n == n - 1) || (reach n ok bottom).any (fun i => i / n == n - 1)
 
+/-- `Conn n ok i j`: square `j` is reached from square `i` by steps between orthogonally adjacent
+squares of the `n×n` board, every square on the way (both ends included) satisfying `ok`.
+Squares are indices `x + y*n`. -/
+inductive Conn (n : Nat) (ok : Nat → Prop) : Nat → Nat → Prop
+  | refl {i : Nat} : i < n * n → ok i → Conn n ok i i
+  | step {i j k : Nat} : Conn n ok i j → k ∈ neighbours n j → ok k → Conn n ok i k
+
+/-- the rule-book notion of a road (as a proposition): some chain of adjacent squares whose tops are
+flats or capstones of colour `c` joins the left edge to the right edge or the bottom edge to the top edge.
+`Spec.hasRoad` decides it (`Roads.spec_hasRoad_iff`). -/
+def RoadPath (s : State) (c : Color) : Prop :=
+  ∃ i j, Conn s.size (fun k => roadTop c (s.squares.getD k []) = true) i j ∧
+    ((i % s.size = 0 ∧ j % s.size = s.size - 1) ∨ (i / s.size = 0 ∧ j / s.size = s.size - 1))
+
 def flatCount (s : State) (c : Color) : Nat :=
   (s.squares.filter (fun sq => match sq with | [] => false | t :: _ => t.color == c && t.kind == .flat)).length
 
@@ -190,6 +204,15 @@ def outcome (s : State) : Outcome :=
     let out := s.whiteStones + s.whiteCaps == 0 || s.blackStones + s.blackCaps == 0
     if full || out then { over := true, winner := flatsWinner, road := false, whiteFlats := wf, blackFlats := bf }
     else { over := false, winner := .none, road := false, whiteFlats := wf, blackFlats := bf }
+
+/-- the PTN result of a finished game by the rule book; `none` while the game is running -/
+def result (s : State) : Option String :=
+  let o := outcome s
+  if !o.over then none else
+  match o.winner with
+  | .none => some "1/2-1/2"
+  | .white => some (if o.road then "R-0" else "F-0")
+  | .black => some (if o.road then "0-R" else "0-F")
 
 /-! ### abstraction from the bit-level position -/
 
